@@ -2,7 +2,7 @@
 use std::sync::Arc;
 
 use genair::checker::check_main;
-use genair::run::{gen_instance, prove, verify, ProveOutcome, VerifyOutcome};
+use genair::run::{gen_instance, prove, prove_aux_delta, verify, ProveOutcome, VerifyOutcome};
 use genair::spec::Spec;
 use genair::stark_dispatch;
 use vcommon::{json, Args, Report, Rng, Value, Worker};
@@ -93,6 +93,38 @@ where
             }
         }
     }
+    // ---- coordinated corruption of a main and an auxiliary constraint: main constraint j is
+    // violated by +delta and auxiliary constraint k by -delta on the same (last non-exempt)
+    // step. Both cells sit in row n - e, which is read as "current" only by exempt steps, so
+    // nothing else changes. The two violations cancel in any linear combination that gives the
+    // two constraints the same coefficient; with independent coefficients it must be rejected.
+    if !spec.aux.is_empty() {
+        let (n, e) = (spec.n(), spec.exemptions);
+        let row = n - e;
+        for k in 0..spec.aux.len() {
+            for j in [k, rng.usize(spec.constraints.len())] {
+                if j >= spec.constraints.len() {
+                    continue;
+                }
+                let t = spec.constraints[j].target;
+                let delta = 1 + rng.below128(p - 1);
+                let mut bad = inst.main.clone();
+                bad[t][row] = (bad[t][row] + delta) % p;
+                // the constraints of other targets read row n - e only on exempt steps, but
+                // another constraint may have the same target: the checker decides
+                let v = check_main(spec, &bad);
+                if v.is_empty() {
+                    continue;
+                }
+                rep.count("false_statement:main-and-aux-cancelling");
+                match prove_aux_delta::<B, H>(spec, &bad, options.clone(), Some((k, row)), p - delta) {
+                    ProveOutcome::Proof(pr) => judge_reject(rep, &format!("main-and-aux-cancelling:{}", if j == k { "same-index" } else { "other-index" }), &ctx, verify::<B, H>(*pr, spec, &acc)),
+                    ProveOutcome::Error(_) => rep.count("prover_refused:error"),
+                    ProveOutcome::Panic(pn) => rep.count(&format!("prover_refused:panic:{}", pn.rel_file())),
+                }
+            }
+        }
+    }
     // ---- honest proof, other public inputs
     if let ProveOutcome::Proof(pr) = prove::<B, H>(spec, &inst.main, options.clone(), None) {
         let mut variants: Vec<(&str, Spec)> = vec![];
@@ -142,7 +174,7 @@ where
 
 pub fn run(args: &Args) {
     let mut rep = Report::new("C02", "c02",
-        "per random GenAir instance (as C01): every corruption class (single cell at first / interior / last non-exempt / next-of-last-non-exempt / first fully exempt / last row in a constrained and in a random column; an asserted cell of every assertion; a whole row; a whole column; two rows) classified by the independent checker: unsatisfying => prover (release, no validation) + verifier must not accept; still satisfying => must still verify; auxiliary cells at rows {0,1,n-e,n-e+1,n-1}; honest proof verified against public inputs with an asserted value / constraint constant / asserted step / periodic value changed; evaluation = one verification of a false (or still true) statement; distinct = instances");
+        "per random GenAir instance (as C01): every corruption class (single cell at first / interior / last non-exempt / next-of-last-non-exempt / first fully exempt / last row in a constrained and in a random column; an asserted cell of every assertion; a whole row; a whole column; two rows) classified by the independent checker: unsatisfying => prover (release, no validation) + verifier must not accept; still satisfying => must still verify; auxiliary cells at rows {0,1,n-e,n-e+1,n-1}; main constraint j violated by +delta and auxiliary constraint k by -delta on the same step (cancel under any combination that shares a coefficient between them), j = k and random j; honest proof verified against public inputs with an asserted value / constraint constant / asserted step / periodic value changed; evaluation = one verification of a false (or still true) statement; distinct = instances");
     let seed = args.seed();
     let max_log_n = args.u64("maxlogn", if args.thorough() { 10 } else { 7 }) as u32;
     let mut w = Worker::new(args, 40);
